@@ -288,6 +288,31 @@ theorem new_refuses_invalid_ceiling (ce cd : PyVal) (prior : List (PyVal × PyVa
   | error e => exact ⟨e, rfl⟩
   | ok u => exact absurd ((checkEpsilonDelta_ok_iff false _).mp hc) h
 
+/-- **C13 (accountant, caller-supplied lists)**: `total(spent_budget=items, …)` raises as soon as ANY item of the list is
+invalid — at whatever position, and whatever the accountant itself has recorded (its state does not enter the
+validation: no prefix of the list is trusted) -/
+theorem total_refuses_invalid_item (a : AccV) (items : List (PyVal × PyVal)) (slack : Option PyVal)
+    (h : ∃ p ∈ items, ¬ ValidBudget false (pairEnv p.1 p.2)) : ∃ e, a.totalGiven items slack = .error e := by
+  have hf : ∃ e, validateItems items = .error e := by
+    induction items with
+    | nil => obtain ⟨p, hp, -⟩ := h; cases hp
+    | cons q rest ih =>
+      simp only [validateItems]
+      cases hq : runChain (pairEnv q.1 q.2) (checkEpsilonDelta false) with
+      | error e => exact ⟨e, rfl⟩
+      | ok u =>
+        obtain ⟨p, hp, hbad⟩ := h
+        rcases List.mem_cons.mp hp with rfl | hr
+        · exact absurd ((checkEpsilonDelta_ok_iff false _).mp hq) hbad
+        · exact ih ⟨p, hr, hbad⟩
+  obtain ⟨e, he⟩ := hf
+  exact ⟨e, by simp [AccV.totalGiven, he, bind, Except.bind]⟩
+
+/-- the validation of `total(spent_budget=…)` does not depend on the accountant's recorded spends -/
+theorem total_validation_state_independent (a b : AccV) (items : List (PyVal × PyVal)) (slack : Option PyVal)
+    (h : a.ceilDelta = b.ceilDelta) : a.totalGiven items slack = b.totalGiven items slack := by
+  simp [AccV.totalGiven, h]
+
 /-- **C13 (tools and estimators)**: their first privacy-relevant statements are `check_bounds` and
 `accountant.check(epsilon, 0)`; an epsilon that is not a number, NaN, negative or zero never gets past them -/
 theorem tool_refuses (a : AccV) (bounds : Option (PyVal × PyVal)) (env : Env)
